@@ -65,6 +65,8 @@ func runC11(c *Ctx) {
 	ns := func(f string) *types.Var { return c.field("blockntfns", "newSubscription", f) }
 	smM := func(m string) *types.Func { return c.method("blockntfns", "SubscriptionManager", m) }
 
+	c.rule("C11.O3", tipBeforeEventsDoc, func() { c.tipBeforeEvents() })
+
 	c.rule("C11.V2", "the backlog handed to a new subscriber ends where the live events begin: "+backlogBoundDoc, func() { c.backlogBound() })
 
 	c.rule("C11.R1", registryOwnerDoc, func() { c.registryOwner() })
